@@ -10,3 +10,9 @@ package pkgload
 //@   propagates
 //@   requires@C13 g != nil && g.lookup != nil
 //@   at@C16 call packages.Load#1 assert arg0.Dir == workDir && ite(buildTags != "", len(arg0.BuildFlags) == 2 && arg0.BuildFlags[0] == "-tags" && arg0.BuildFlags[1] == buildTags, len(arg0.BuildFlags) == 0)
+
+//@ func New
+//@   props C13
+
+//@ func ParseMethodString
+//@   props C13
